@@ -39,6 +39,8 @@ import (
 //	               version on the left of "=>" (Version "" = every version), replace_name and
 //	               replace_version = the right-hand side; not a package),
 //	               toolchain (only with kind=go, e.g. "go1.22.3"), indirect ("1"),
+//	               sum (only with kind=go: a go.sum is written next to the go.mod, the letters
+//	               say what it holds, see GoSumEntries),
 //	               replace_name, replace_version on a require record: a replace directive for
 //	               exactly this requirement (new module; version may be empty for a local path),
 //	               replace_all ("1": that directive omits the old version)
